@@ -90,7 +90,7 @@ def rule_z_de(ctx):
         if P.loc not in s:
             why.append("the inserted value does not come from the element just obtained")
         # error propagation: a from_residual assigned to _0 fed by the poll's result
-        fr = [c for c in ctx.calls(b) if (c.name or "").endswith("FromResidual::from_residual") and c.dest and c.dest["local"] == 0]
+        fr = [c for c in ctx.calls(b) if (c.name or "").endswith("FromResidual::from_residual") and c.dest and c.dest["local"] in b.ret_locals()]
         prop = False
         for f in fr:
             s2, _ = b.slice_back(f.loc, f.args)
@@ -118,7 +118,7 @@ def rule_z_de(ctx):
         rp = I.arg_path(0)
         rets = []
         for loc, st_ in b.all_assigns():
-            if st_["place"]["local"] == 0 and st_["rv"]["k"] == "aggregate" and st_["rv"].get("variant") == "Ok":
+            if st_["place"]["local"] in b.ret_locals() and st_["rv"]["k"] == "aggregate" and st_["rv"].get("variant") == "Ok":
                 rets.append((loc, st_))
         in_place = False
         for loc, st_ in rets:
